@@ -14,7 +14,7 @@ func decConfigs(tier string) []DecConfig {
 		maxB = 9
 	}
 	var out []DecConfig
-	for b := 2; b <= maxB; b++ {
+	for b := maxB; b >= 2; b-- { // largest state spaces first: better balance on the worker pool
 		for w := 1; w < b; w++ {
 			out = append(out, DecConfig{W: w, B: b})
 		}
@@ -81,13 +81,33 @@ const ruleDec = "explicit-state BFS: every distinct canonical state (BufferSize 
 
 func registerDecCheck(id string, levels []int, expl string) {
 	props := map[string]bool{id: true}
+	bfs := decShards(id, props, levels)
 	register(&Check{
-		ID:     id,
-		Shards: decShards(id, props, levels),
+		ID: id,
+		Shards: func(tier string) []engine.Shard {
+			if id == "C04" {
+				// exact expansion is also checked on real parser output (many sequences per block, several drains per call)
+				return append(bfs(tier), acceptShards(id, tier)...)
+			}
+			return bfs(tier)
+		},
 		Replay: func(raw json.RawMessage, col *engine.Collector) error {
+			var probe struct {
+				Level string `json:"level"`
+			}
+			json.Unmarshal(raw, &probe)
+			if probe.Level == "" {
+				return replayAccept(id, raw, col)
+			}
 			return replayDec(id, props, raw, col)
 		},
-		Bounds:      decBounds(levels),
+		Bounds: func(tier string) map[string]any {
+			m := decBounds(levels)(tier)
+			if id == "C04" {
+				m["parser_output_product"] = layerBounds(acceptLayersFor(id, tier))
+			}
+			return m
+		},
 		Rule:        ruleDec,
 		Explanation: expl,
 		StatesNote:  "state = canonical key of the real DecoderBuffer/Decoder plus the model cursor; transition = one API call applied to a clone of a reached state and, in lock step, to the reference model; traces_validated_against_impl = distinct states, each reached by a real path from Init",
